@@ -20,8 +20,15 @@ void prop(const Case& cs) {
     if (v != nv - 1) obj = fam::make(cs);
     std::string who = std::string(fn) + " variant " + std::to_string(v);
     long adv = obj->advertised_size(v);
+    // the two serializer overloads are separate code with the same documented side effects; which one runs first on the object is part
+    // of the case (0: bytes then stream, 1: stream then bytes, 2/3: the stream image comes from its own fresh build of the recipe)
+    const int order = static_cast<int>(vf::mix64(static_cast<uint64_t>(cs.get("cseed", 1)) * 31 + static_cast<uint64_t>(cs.get("seed", 1)) + static_cast<uint64_t>(v)) & 3);
+    std::string simg;
+    if (order == 1) simg = obj->stream(v);
+    else if (order >= 2) { fam::P fresh = fam::make(cs); simg = fresh->stream(v); }
     img[v] = obj->bytes(0, v);
-    std::string simg = obj->stream(v);
+    if (order == 0) simg = obj->stream(v);
+    vf::label(order == 0 ? "order:bytes-then-stream" : order == 1 ? "order:stream-then-bytes" : "order:stream-of-a-fresh-build");
     fam::Bytes himg; if (hdr > 0) himg = obj->bytes(hdr, v);
     bool unordered = obj->image_order_unspecified(v);
     VF_CHECK(simg.size() == img[v].size() && std::memcmp(simg.data(), img[v].data(), img[v].size()) == 0, "bytes-vs-stream", who << ": byte-vector image (" << img[v].size() << " bytes) and stream image (" << simg.size() << " bytes) differ");
